@@ -96,6 +96,18 @@ NUMLIKE_PARAMS = ['1', '007', 'None', 'True', '15']      # hazard: strings print
 KWVALS = [1, 'v', 'W', 2.5, 'a b', True]
 KEYWORDS = ['a', 'b', 'bb', 'c', 'if', 'then', 'ab']
 HOSTILE_KEYWORDS = ["it's", 'a-b', 'é', 'x y']
+# long keyword lists: the printer has to lay them out over several @@keyword lines; a break may only fall
+# BETWEEN keywords, whatever they contain (hyphens, blanks, quotes, backslashes, unicode, 30+ characters)
+LONG_KEYWORD_POOL = [
+    'end-if', 'else-if', 'a-b-c', 'x-y', 'end if', 'else if', 'go to', 'not in', 'is not', "it's", "don't stop",
+    'say"hi"', 'back\\slash', 'a\\-b', 'tab\tkw', 'é', 'ñandú', '日本語', 'Ünï-cödé', 'naïve word', '→', 'ｗｉｄｅ',
+    'a_very_long_keyword_of_more_than_thirty_characters', 'another-extremely-long-hyphenated-keyword-here',
+    'long keyword with several spaces inside it', 'semi;colon-and-hyphen-inside-a-long-keyword',
+    'while', 'for', 'do', 'begin', 'end', 'if', 'then', 'else', 'elif', 'case', 'of', 'var', 'const', 'type',
+    'proc', 'func', 'return', 'break', 'continue', 'a', 'b', 'bb', 'c', 'ab', '-', '--', 'a-', '-b', 'par(en)',
+    'hash#tag', 'sl/ash', '(*', '::', '@@keyword', ')', '( x )', 'x  y', ' lead', 'trail ', '$', '{}', '`bq`',
+]
+KEYWORD_NAME_PAT = r'[^\s,;]+(?: [a-z]+)*'
 WS_DIRECTIVES = [r'[ ]+', r'[\t ]+', r'\s+', r'[ ,]+']
 WS_SLASH_DIRECTIVES = [r'[ /]+']
 WS_SLASH_DQUOTE_DIRECTIVES = [r'[ "/]+']          # hazard: printed ?"[ "/]+" (unescaped)
@@ -246,6 +258,9 @@ def txt(e) -> str:
     if T is L.PClo:
         return '{' + txt(e.e) + '}+'
     if T is L.Join:
+        if getattr(e, 'assoc', ''):
+            # the documented left/right joins  s<{e}+  s>{e}+  (always positive)
+            return f'{txt_term(e.sep)}{"<" if e.assoc == "left" else ">"}{{{txt(e.e)}}}+'
         op = '.' if e.gather else '%'
         return f'{txt_term(e.sep)}{op}{{{txt(e.e)}}}' + ('+' if e.positive else '')
     if T is L.LA:
@@ -374,6 +389,8 @@ def build_model(g: L.Grammar, name=None):
         if T is L.PClo:
             return peg.PositiveClosure(exp=b(e.e))
         if T is L.Join:
+            if getattr(e, 'assoc', ''):
+                return (peg.LeftJoin if e.assoc == 'left' else peg.RightJoin)(exp=b(e.e), sep=bt(e.sep))
             cls = {(False, False): peg.Join, (True, False): peg.PositiveJoin,
                    (False, True): peg.Gather, (True, True): peg.PositiveGather}[(e.positive, e.gather)]
             return cls(exp=b(e.e), sep=bt(e.sep))
@@ -465,6 +482,7 @@ def gen_case(rng: random.Random, profile: Profile | None = None):
     profile = profile or Profile()
     F = dict(G.FEATURES)
     F['cut'] = rng.random() < 0.3
+    F['assoc'] = rng.random() < 0.6          # left/right joins  s<{e}+  s>{e}+
     pats = dict(PLAIN_PATS)
     hostile = rng.random() < profile.hostile_rate
     want_hazard = rng.random() < profile.hazard_rate
@@ -497,18 +515,35 @@ def gen_case(rng: random.Random, profile: Profile | None = None):
         later = [x.name for x in g.rules[g.rules.index(r_) + 1:]]
         extra = tuple(G.gen_exp(rng, 1, later, F, list(PLAIN_PATS)) for _ in range(rng.choice([6, 9, 14])))
         extra = tuple(L.Group(x) if isinstance(x, (L.Choice, L.Seq)) else x for x in extra)
-        wrap = rng.choice(['seq', 'opt', 'clo', 'join', 'group', 'named', 'choice'])
+        wrap = rng.choice(['seq', 'opt', 'clo', 'join', 'group', 'named', 'choice', 'ljoin', 'rjoin'])
         if wrap == 'choice':
             big = L.Group(L.Choice(tuple(L.Seq(extra[i:i + 3]) for i in range(0, len(extra), 3))))
         else:
             big = L.Seq(extra)
             big = {'seq': lambda b: b, 'opt': L.Opt, 'clo': L.PClo, 'group': L.Group,
                    'join': lambda b: L.Join(L.Tok(';'), b, True, False),
+                   'ljoin': lambda b: L.Join(L.Tok(';'), b, True, False, 'left'),
+                   'rjoin': lambda b: L.Join(L.Tok(';'), b, True, False, 'right'),
                    'named': lambda b: L.Named('big', L.Group(b))}[wrap](big)
         body = r_.body
         items = list(body.items) if isinstance(body, L.Seq) else [L.Group(body) if isinstance(body, L.Choice) else body]
         r_.body = L.Seq(tuple(items + (list(big.items) if isinstance(big, L.Seq) else [big])))
         feats.add('long_body')
+        if wrap in ('ljoin', 'rjoin'):
+            feats.add('assoc_join_multiline')
+    if rng.random() < 0.05:
+        # a left/right join at a guaranteed rate (vt.gen draws them only now and then)
+        r_ = rng.choice(g.rules)
+        later = [x.name for x in g.rules[g.rules.index(r_) + 1:]]
+        inner = G.gen_exp(rng, rng.choice([0, 1, 2]), later, F, list(PLAIN_PATS))
+        sep = rng.choice([L.Tok(','), L.Tok('+'), L.Pat('[ab]'), L.Group(L.Choice((L.Tok('+'), L.Tok('-'))))])
+        j = L.Join(sep, inner, True, False, rng.choice(['left', 'right']))
+        if rng.random() < 0.3:
+            j = L.Opt(j)
+        body = r_.body
+        items = list(body.items) if isinstance(body, L.Seq) else [L.Group(body) if isinstance(body, L.Choice) else body]
+        items.insert(rng.randrange(len(items) + 1), j)
+        r_.body = L.Seq(tuple(items))
     start = g.rules[0].name
 
     # ---- leaves of the extended language
@@ -536,7 +571,7 @@ def gen_case(rng: random.Random, profile: Profile | None = None):
     for r_ in g.rules:
         r_.body = _map(r_.body, leafswap)
         # the text form cannot express a meta as a separator (`@int.{e}` reads `@int` as an element)
-        r_.body = _map(r_.body, lambda e: L.Join(L.Tok(','), e.e, e.positive, e.gather)
+        r_.body = _map(r_.body, lambda e: L.rebuild(e, [L.Tok(','), e.e])
                        if isinstance(e, L.Join) and isinstance(e.sep, L.Meta) else e)
 
     def add_to_seq(rule, extra, where='end'):
@@ -634,6 +669,22 @@ def gen_case(rng: random.Random, profile: Profile | None = None):
         kws = rng.sample(KEYWORDS, rng.choice([1, 2, 3]))
         if hostile and rng.random() < 0.3:
             kws.append(rng.choice(HOSTILE_KEYWORDS))
+        if rng.random() < 0.35:
+            # a LONG list (8-40) with every kind of character at the possible wrap points, and a @name rule
+            # that can read any of them so that keyword rejection is exercised for each keyword
+            kws = rng.sample(LONG_KEYWORD_POOL, rng.choice([8, 10, 12, 16, 20, 25, 30, 40]))
+            feats.add('long_keywords')
+            if rng.random() < 0.5:
+                d = dict(g.directives)
+                d['namechars'] = rng.choice(['-', '-', "-'", '-_$'])
+                g.directives = d
+                feats.add('dir:namechars')
+            kwrule = L.Rule('kwname', L.Pat(KEYWORD_NAME_PAT), ('name',))
+            pats[KEYWORD_NAME_PAT] = list(kws) + [k + 'x' for k in kws[:6]] + ['plain', 'not-a-kw', 'two words']
+            srule = next(r_ for r_ in g.rules if r_.name == start)
+            old = srule.body
+            srule.body = L.Choice((L.Seq((L.Call('kwname'), L.EOF())), L.Group(old) if isinstance(old, L.Choice) else old))
+            g.rules.append(kwrule)
         g.keywords = tuple(kws)
         feats.add('keywords')
         for r_ in g.rules:
@@ -672,6 +723,11 @@ def gen_case(rng: random.Random, profile: Profile | None = None):
                     r_.base = None
             else:
                 g.keywords = ()
+    for r_ in g.rules:
+        for x in L.walk(r_.body):
+            if isinstance(x, L.Join) and getattr(x, 'assoc', ''):
+                feats.add('assoc_join')
+                feats.add('assoc_join:' + x.assoc)
     feats |= {'hz:' + h for h in hazards(g)}
     return g, start, feats, pats
 
@@ -1077,6 +1133,11 @@ def gen_inputs(rng, g: L.Grammar, start: str, n: int, pats: dict):
         G.PATS.update(saved)
     if g.directives.get('ignorecase') == 'True' and rng.random() < 0.5:
         out = [t.upper() if rng.random() < 0.5 else t for t in out]
+    if len(g.keywords) >= 8:
+        # long keyword lists: every keyword (and a near miss) is tried as an input of the @name rule
+        for k in g.keywords:
+            out.append(k)
+        out.extend(k + 'x' for k in g.keywords[:4])
     return out
 
 
